@@ -11,7 +11,7 @@ from sa.model import contains, enclosing, execute_impl_funcs
 from sa.variants import Variant, replace_once, sub_first, sub_once
 
 from .c07 import check_cache_invalidation
-from .common import call_names, template_methods
+from .common import call_names, eval_bool, template_methods
 
 ID = "C16"
 EXPLANATION = (
@@ -72,15 +72,32 @@ def run(ctx) -> None:
     check_cache_invalidation(ctx, "C16.R1", families=("Graph",))
     # scheduler skips inactive nodes first
     gcfg = ctx.cfg(grn)
-    skip = [n for n in gcfg.nodes if n.kind == "test" and "active_nodes" in src(n.ast) and "not in" in src(n.ast)]
+    # under 'an active set is given and the node is not in it' neither the readiness test nor the ready list is reachable
+    an = "active_nodes"
+    member_atoms = set()
+    for x in walk_local(grn.node):
+        if isinstance(x, ast.Compare) and len(x.ops) == 1 and isinstance(x.ops[0], (ast.In, ast.NotIn)) and src(x.comparators[0]) == an:
+            member_atoms.add(src(ast.Compare(x.left, [ast.In()], x.comparators)))
+    val_cfg = {f"{an} is None": False}
+    val_bool = {f"{an} is None": False}
+    for a in member_atoms:
+        val_cfg[a] = False
+        val_cfg[a.replace(" in ", " not in ", 1)] = True
+        val_bool[a] = False
     ready_tests = [n for n in gcfg.nodes if any("_is_node_ready" in call_names(db, c, grn) for c in gcfg.calls_at(n))]
-    ok = bool(skip) and bool(ready_tests)
+    ok = bool(member_atoms) and bool(ready_tests)
     if ok:
-        dom = dominators(gcfg.entry)
-        t = skip[0]
-        tgt = [x for x, l, _ in t.succ if l == "T"][0]
-        loops = [n for n in gcfg.nodes if n.kind == "for"]
-        ok = all(t in dom.get(r, set()) for r in ready_tests) and not any(reaches(tgt, r, avoid=loops) for r in ready_tests)
+        live = reachable(gcfg.entry, specialize(val_cfg, gcfg))
+        for r in ready_tests:
+            comps = [x for e in gcfg.header_exprs(r) for x in ast.walk(e) if isinstance(x, (ast.ListComp, ast.SetComp, ast.GeneratorExp)) and any(isinstance(c, ast.Call) and "_is_node_ready" in call_names(db, c, grn) for c in ast.walk(x))]
+            if comps:
+                # comprehension form: the filter is false under the valuation
+                for cp in comps:
+                    conj = ast.BoolOp(op=ast.And(), values=list(cp.generators[0].ifs)) if len(cp.generators[0].ifs) > 1 else (cp.generators[0].ifs[0] if cp.generators[0].ifs else ast.Constant(True))
+                    if eval_bool(conj, val_bool) is not False:
+                        ok = False
+            elif r in live:
+                ok = False
     rep.add("C16.R1", f"{grn.qname}:skip-inactive", ok, grn.loc(), "nodes outside the active set are skipped before any readiness test" if ok else "a node outside the active set can reach the readiness test / ready list")
 
     # ---- R2 ---------------------------------------------------------------------
